@@ -12,10 +12,18 @@
    rel_ids V t p only (live_agree); on a tree with unique ids the live reading of the tree's own
    flags is owner_rel (own_self).  rel_reach ties rel_ids to the descent [reach] of WinLocA.v:
    a child of window pid that matters at q is reached by the descent to pid at a position
-   inside the child's rectangle. *)
+   inside the child's rectangle.
+
+   The forest (the tree and the detached subtrees of closed windows): vis_now / f_parent read it
+   tree first; f_parent depends on ids and shapes only (f_parent_skel); the root of a detached
+   subtree has no parent (orphan_root_noparent).  Cutting a window w out of the tree
+   (WinInputProofs.cut, what win_close does) changes neither own nor -- up to w itself --
+   rel_ids at positions where w does not matter or is invisible (live_cut); [evolves T t D]: t
+   comes from T by flag changes and by cutting the windows D (live_evolves). *)
 From Coq Require Import ZArith List Bool Lia ZifyBool.
 From Tickit Require Import RectDefs RectProofs WinRectSet WinDefs WinSpec WinExposeProofs
-  WinFlushProofs WinLogDisjoint WinLocA WinLocTree WinLocFocus WinReDefs.
+  WinFlushProofs WinLogDisjoint WinLocA WinLocTree WinLocality WinLocFocus WinInput WinReDefs WinReProofs.
+From Tickit Require WinInputProofs.
 Import ListNotations.
 Local Open Scope Z_scope.
 
@@ -215,8 +223,16 @@ Qed.
 Definition vis_in (t : wtree) (id : Z) : bool :=
   match t_find id t with Some n => w_vis (t_info n) | None => false end.
 
-Lemma vis_now_in st id : vis_now st id = vis_in (r_tree st) id.
-Proof. reflexivity. Qed.
+(* a window of the tree is read in the tree, whatever the orphans *)
+Lemma vis_now_tree st x n : t_find x (r_tree st) = Some n -> vis_now st x = w_vis (t_info n).
+Proof. intros H. unfold vis_now, node_now, f_find, forest. cbn [first_some]. rewrite H. reflexivity. Qed.
+
+Lemma vis_now_in st x :
+  NoDup (t_ids (r_tree st)) -> In x (t_ids (r_tree st)) -> vis_now st x = vis_in (r_tree st) x.
+Proof.
+  intros Hnd Hin. destruct (t_find_some x _ Hnd Hin) as [n Hn].
+  rewrite (vis_now_tree st x n Hn). unfold vis_in. rewrite Hn. reflexivity.
+Qed.
 
 (* V tells the truth about the flags of t *)
 Definition Vok (V : Z -> bool) (t : wtree) : Prop :=
@@ -374,4 +390,219 @@ Lemma vis_in_update_keeps f y x t :
 Proof.
   intros Hf Hv. rewrite (vis_in_update f y x t Hf). unfold vis_in.
   destruct (t_find x t); [|reflexivity]. rewrite Hv. destruct (x =? y); reflexivity.
+Qed.
+
+(* ------------------------------------------------------------------------------------ *)
+(* the forest: the tree and the detached subtrees                                        *)
+
+Module IP := WinInputProofs.
+
+Lemma Vok_now st : NoDup (t_ids (r_tree st)) -> Vok (vis_now st) (r_tree st).
+Proof.
+  intros Hnd c Hc. apply vis_now_tree. apply (t_find_subtree c _ Hc Hnd).
+Qed.
+
+Lemma tree_subl st n : subtree n (r_tree st) -> IP.subl n (forest st).
+Proof. intros H. exists (r_tree st). split; [left; reflexivity|apply subtree_sub; exact H]. Qed.
+
+Lemma forest_tree_nodup st : IP.ids_unique st -> NoDup (t_ids (r_tree st)).
+Proof.
+  unfold IP.ids_unique, IP.forest_ids, forest. cbn [flat_map]. intros H.
+  apply IP.NoDup_app_inv in H. destruct H as (H & _). exact H.
+Qed.
+
+(* the parent found by f_parent *)
+Lemma t_parent_node_spec id : forall t p,
+  t_parent_node id t = Some p -> IP.sub p t /\ exists c, In c (t_kids p) /\ t_id c = id.
+Proof.
+  induction t as [i ch IH] using IP.wtree_ind'. intros p H. rewrite IP.t_parent_node_eq in H.
+  destruct (existsb (fun c => t_id c =? id) ch) eqn:E.
+  - injection H as <-. split; [apply IP.sub_refl|]. apply existsb_exists in E.
+    destruct E as (c & Hc & Hid). exists c. split; [exact Hc|lia].
+  - apply IP.first_some_some in H. destruct H as (c & Hc & Hp).
+    rewrite Forall_forall in IH. destruct (IH c Hc p Hp) as [Hs Hk].
+    split; [|exact Hk]. eapply IP.sub_kid; [|exact Hs]. exact Hc.
+Qed.
+
+Lemma f_parent_inv st c a :
+  f_parent st c = Some a ->
+  exists p c', IP.subl p (forest st) /\ t_id p = a /\ In c' (t_kids p) /\ t_id c' = c.
+Proof.
+  unfold f_parent. destruct (first_some (t_parent_node c) (forest st)) as [p|] eqn:E; [|discriminate].
+  intros H. injection H as <-. apply IP.first_some_some in E. destruct E as (t & Ht & Hp).
+  destruct (t_parent_node_spec c t p Hp) as [Hs (c' & Hc' & Hid)].
+  exists p, c'. split; [exists t; split; assumption|]. split; [reflexivity|]. split; assumption.
+Qed.
+
+(* the root of a detached subtree has no parent *)
+Lemma orphan_root_noparent st n :
+  IP.ids_unique st -> In n (r_orphans st) -> f_parent st (t_id n) = None.
+Proof.
+  intros Hu Hn. destruct (f_parent st (t_id n)) as [a|] eqn:E; [|reflexivity]. exfalso.
+  destruct (f_parent_inv st _ a E) as (p & c' & (t & Ht & Hs) & _ & Hc' & Hid).
+  (* the id of n occurs in t as the id of a non-root window, and in n as the id of the root *)
+  assert (Hin_t : In (t_id n) (flat_map IP.t_ids (t_kids t))).
+  { rewrite <- Hid. eapply IP.kid_in_ids; eassumption. }
+  assert (Hn' : In n (forest st)) by (right; exact Hn).
+  assert (Hint : In (t_id n) (IP.t_ids t)) by (rewrite IP.t_ids_eq; right; exact Hin_t).
+  assert (Etn : t = n).
+  { apply (IP.NoDup_flat_sep (forest st) t n (t_id n) Hu Ht Hn' Hint (IP.t_id_in n)). }
+  subst t. pose proof (IP.NoDup_flat_in _ _ Hu Hn') as Nn. apply IP.NoDup_kids in Nn.
+  destruct Nn as [_ Nn]. exact (Nn Hin_t).
+Qed.
+
+(* f_parent reads ids and shapes only *)
+Lemma tpn_skel x : forall t,
+  option_map t_id (t_parent_node x (skel t)) = option_map t_id (t_parent_node x t).
+Proof.
+  induction t as [i ch IH] using IP.wtree_ind'. rewrite skel_node, !IP.t_parent_node_eq.
+  assert (He : existsb (fun c => t_id c =? x) (map skel ch) = existsb (fun c => t_id c =? x) ch).
+  { clear IH. induction ch as [|c r IHr]; [reflexivity|]. cbn [map existsb]. rewrite IHr.
+    unfold t_id at 1. rewrite skel_info. reflexivity. }
+  rewrite He. destruct (existsb (fun c => t_id c =? x) ch); [reflexivity|]. clear He.
+  induction IH as [|c r Hc _ IHr]; [reflexivity|]. cbn [map first_some].
+  destruct (t_parent_node x (skel c)) as [a|] eqn:E1; destruct (t_parent_node x c) as [b|] eqn:E2;
+    cbn [option_map] in *; try discriminate; [exact Hc|exact IHr].
+Qed.
+
+Lemma first_some_skel x (l : list wtree) :
+  option_map t_id (first_some (t_parent_node x) (map skel l)) = option_map t_id (first_some (t_parent_node x) l).
+Proof.
+  induction l as [|c r IH]; [reflexivity|]. cbn [map first_some]. pose proof (tpn_skel x c) as Hc.
+  destruct (t_parent_node x (skel c)) as [a|]; destruct (t_parent_node x c) as [b|];
+    cbn [option_map] in *; try discriminate; [exact Hc|exact IH].
+Qed.
+
+Lemma f_parent_opt st x : f_parent st x = option_map t_id (first_some (t_parent_node x) (forest st)).
+Proof. unfold f_parent. destruct (first_some (t_parent_node x) (forest st)); reflexivity. Qed.
+
+Lemma f_parent_skel st st' x :
+  map skel (forest st') = map skel (forest st) -> f_parent st' x = f_parent st x.
+Proof.
+  intros E. rewrite !f_parent_opt, <- (first_some_skel x (forest st')), E. apply first_some_skel.
+Qed.
+
+(* ------------------------------------------------------------------------------------ *)
+(* cutting a window out of the tree                                                      *)
+
+Lemma cut_node w i ch :
+  exists i', IP.cut w (Node i ch) = Node i' (kids_remove w (map (IP.cut w) ch)) /\
+             w_id i' = w_id i /\ w_rect i' = w_rect i.
+Proof.
+  cbn [IP.cut]. destruct (existsb (fun c => t_id c =? w) ch && opt_eqb (w_fchild i) w);
+    eexists; (split; [reflexivity|split; reflexivity]).
+Qed.
+
+Lemma cut_info w n :
+  w_id (t_info (IP.cut w n)) = w_id (t_info n) /\ w_rect (t_info (IP.cut w n)) = w_rect (t_info n).
+Proof.
+  destruct n as [i ch]. destruct (cut_node w i ch) as (i' & -> & H1 & H2). cbn [t_info]. split; assumption.
+Qed.
+
+Lemma live_cut V w : forall t p,
+  (In w (rel_ids V t p) -> V w = false) ->
+  own V (IP.cut w t) p = own V t p /\
+  incl (rel_ids V (IP.cut w t) p) (rel_ids V t p) /\
+  (forall x, In x (rel_ids V t p) -> x = w \/ In x (rel_ids V (IP.cut w t) p)).
+Proof.
+  apply (wtree_ind2 (fun t => forall p,
+    (In w (rel_ids V t p) -> V w = false) ->
+    own V (IP.cut w t) p = own V t p /\
+    incl (rel_ids V (IP.cut w t) p) (rel_ids V t p) /\
+    (forall x, In x (rel_ids V t p) -> x = w \/ In x (rel_ids V (IP.cut w t) p)))).
+  intros i ch IH p Hw. destruct (cut_node w i ch) as (i' & -> & Hid & _).
+  rewrite !own_unfold, !rel_ids_unfold, Hid. rewrite rel_ids_unfold in Hw.
+  assert (Hk : first_own V (kids_remove w (map (IP.cut w) ch)) p = first_own V ch p /\
+               incl (rel_kids V (kids_remove w (map (IP.cut w) ch)) p) (rel_kids V ch p) /\
+               (forall x, In x (rel_kids V ch p) -> x = w \/ In x (rel_kids V (kids_remove w (map (IP.cut w) ch)) p))).
+  { induction IH as [|c r Hc _ IHr].
+    - unfold kids_remove. cbn [map filter first_own rel_kids]. split; [reflexivity|]. split; [apply incl_refl|]. intros x [].
+    - cbn [map]. rewrite kids_remove_cons. rewrite IP.cut_id_eq.
+      cbn [rel_kids first_own] in Hw |- *.
+      assert (Hwr : In w (rel_kids V r p) -> V w = false).
+      { intros H. apply Hw. apply in_or_app. right. exact H. }
+      destruct (IHr Hwr) as (E1 & E2 & E3).
+      destruct (t_id c =? w) eqn:Ecw.
+      + (* the child is w itself *)
+        assert (Ew : w_id (t_info c) = w) by (unfold t_id in Ecw; lia).
+        destruct (cell_inb (w_rect (t_info c)) p) eqn:Hin.
+        * assert (Hvw : V w = false).
+          { apply Hw. apply in_or_app. left. left. exact Ew. }
+          rewrite Ew, Hvw. cbn [andb]. split; [exact E1|]. split.
+          -- intros x Hx. apply in_or_app. right. apply E2. exact Hx.
+          -- intros x Hx. apply in_app_or in Hx. destruct Hx as [[Hx|[]]|Hx]; [left; symmetry; exact Hx|apply E3; exact Hx].
+        * rewrite andb_false_r. split; [exact E1|]. split.
+          -- intros x Hx. apply in_or_app. right. apply E2. exact Hx.
+          -- intros x Hx. apply in_app_or in Hx. destruct Hx as [[]|Hx]. apply E3. exact Hx.
+      + cbn [rel_kids first_own]. destruct (cut_info w c) as [Ei Er]. rewrite Ei, Er.
+        destruct (cell_inb (w_rect (t_info c)) p) eqn:Hin.
+        * destruct (V (w_id (t_info c))) eqn:Hv; cbn [andb].
+          -- destruct (Hc (fst p - top (w_rect (t_info c)), snd p - left (w_rect (t_info c)))) as (F1 & F2 & F3).
+             { intros H. apply Hw. apply in_or_app. left. right. exact H. }
+             rewrite F1. split; [reflexivity|]. split.
+             ++ intros x Hx. apply in_app_or in Hx. apply in_or_app. destruct Hx as [[Hx|Hx]|Hx].
+                ** left. left. exact Hx.
+                ** left. right. apply F2. exact Hx.
+                ** right. apply E2. exact Hx.
+             ++ intros x Hx. apply in_app_or in Hx. destruct Hx as [[Hx|Hx]|Hx].
+                ** right. apply in_or_app. left. left. exact Hx.
+                ** destruct (F3 x Hx) as [H|H]; [left; exact H|right; apply in_or_app; left; right; exact H].
+                ** destruct (E3 x Hx) as [H|H]; [left; exact H|right; apply in_or_app; right; exact H].
+          -- rewrite E1. split; [reflexivity|]. split.
+             ++ intros x Hx. apply in_app_or in Hx. apply in_or_app. destruct Hx as [Hx|Hx]; [left; exact Hx|right; apply E2; exact Hx].
+             ++ intros x Hx. apply in_app_or in Hx. destruct Hx as [Hx|Hx].
+                ** right. apply in_or_app. left. exact Hx.
+                ** destruct (E3 x Hx) as [H|H]; [left; exact H|right; apply in_or_app; right; exact H].
+        * rewrite !andb_false_r. cbn [app]. split; [exact E1|]. split; [exact E2|exact E3]. }
+  destruct Hk as (E1 & E2 & E3). rewrite E1. split; [reflexivity|]. split; assumption.
+Qed.
+
+(* the tree t comes from T by info changes that keep ids and rectangles, and by cutting out the
+   windows listed in D *)
+Inductive evolves (T : wtree) : wtree -> list Z -> Prop :=
+| ev_refl : evolves T T []
+| ev_upd t D f y : keeps_shape f -> evolves T t D -> evolves T (t_update f y t) D
+| ev_cut t D w : evolves T t D -> evolves T (IP.cut w t) (w :: D).
+
+Lemma evolves_root T t D :
+  evolves T t D -> w_id (t_info t) = w_id (t_info T) /\ w_rect (t_info t) = w_rect (t_info T).
+Proof.
+  induction 1 as [|t D f y Hf _ IH|t D w _ IH]; [split; reflexivity| |].
+  - destruct (skel_eq_root _ _ (skel_update f y Hf t)) as [H1 H2]. destruct IH as [I1 I2]. split; congruence.
+  - destruct (cut_info w t) as [H1 H2]. destruct IH as [I1 I2]. split; congruence.
+Qed.
+
+Theorem live_evolves V T t D p :
+  evolves T t D ->
+  (forall x, In x D -> In x (rel_ids V T p) -> V x = false) ->
+  own V t p = own V T p /\
+  incl (rel_ids V t p) (rel_ids V T p) /\
+  (forall x, In x (rel_ids V T p) -> In x D \/ In x (rel_ids V t p)).
+Proof.
+  induction 1 as [|t D f y Hf _ IH|t D w _ IH]; intros HD.
+  - split; [reflexivity|]. split; [apply incl_refl|]. intros x Hx. right. exact Hx.
+  - destruct (IH HD) as (E1 & E2 & E3).
+    rewrite (own_skel V t (t_update f y t) p (skel_update f y Hf t)).
+    rewrite (rel_ids_skel V t (t_update f y t) p (skel_update f y Hf t)).
+    split; [exact E1|]. split; assumption.
+  - destruct (IH (fun x Hx => HD x (or_intror Hx))) as (E1 & E2 & E3).
+    destruct (live_cut V w t p) as (F1 & F2 & F3).
+    { intros Hw. apply (HD w (or_introl eq_refl)). apply E2. exact Hw. }
+    split; [rewrite F1; exact E1|]. split.
+    + intros x Hx. apply E2. apply F2. exact Hx.
+    + intros x Hx. destruct (E3 x Hx) as [H|H]; [left; right; exact H|].
+      destruct (F3 x H) as [->|H']; [left; left; reflexivity|right; exact H'].
+Qed.
+
+(* every window that matters is a child of some window of the tree *)
+Lemma rel_ids_kid V : forall t p x, In x (rel_ids V t p) ->
+  exists n c, subtree n t /\ In c (t_kids n) /\ t_id c = x.
+Proof.
+  apply (wtree_ind2 (fun t => forall p x, In x (rel_ids V t p) ->
+    exists n c, subtree n t /\ In c (t_kids n) /\ t_id c = x)).
+  intros i ch IH p x Hx. rewrite rel_ids_unfold in Hx. apply rel_kids_inv in Hx.
+  destruct Hx as (c & Hc & _ & [E|[_ Hx]]).
+  - exists (Node i ch), c. split; [constructor|]. split; [exact Hc|symmetry; exact E].
+  - rewrite Forall_forall in IH. destruct (IH c Hc _ _ Hx) as (n & c' & Hn & Hc' & Hid).
+    exists n, c'. split; [eapply sub_kid; eassumption|]. split; assumption.
 Qed.
